@@ -25,12 +25,13 @@ def gen_ts(r, grid, prec, hostile=False):
     return {'kind': 'indexed', 'seq': [r.choice(pool) for _ in range(r.randint(2, 4))]}
 
 
-def gen_calls(r, grid, prec, maxcalls=6, end_with_update=True):
+def gen_calls(r, grid, prec, maxcalls=6, end_with_update=True, zero=False):
     pool = DYADIC_IV if grid == 'dyadic' else [float(x) for x in DEC[prec]['iv']]
     calls = []
     for _ in range(r.randint(1, maxcalls)):
         k = r.random()
-        calls.append([r.choice(pool), 'update' if k < 0.15 else (k < 0.4)])
+        # (an empty interval is legal: forced, it still completes processes an earlier call left behind)
+        calls.append([0.0 if zero and r.random() < 0.1 else r.choice(pool), 'update' if k < 0.15 else (k < 0.4)])
     if end_with_update:
         calls.append([r.choice(pool), 'update'])
     return calls
